@@ -42,6 +42,7 @@ script's first `writeHeader`.  For a recover script that panics before its first
 `C10_usable`) hold without it.
 -/
 import Restful.Lemmas.Panic
+import Restful.Lemmas.StateShape
 namespace Restful
 namespace Props
 open Serve Serve.Panic
@@ -361,6 +362,12 @@ example :
       o'.escaped = none ∧ o'.recov = 1 ∧ o'.body = "r".toList ∧ o'.status = 503 ∧ o'.complete = true ∧
       Spec.c10Holds E cfg' .serveHandleF sr o' = true := by
   decide
+
+/-! The frame condition (Lemmas/StateShape.lean): the code has exactly the state this property's model
+    accounts for — no further package-level variable, struct type or field; constants as modelled. -/
+-- also: Restful.StateShape.globals_shape
+-- also: Restful.StateShape.consts_shape
+-- also: Restful.StateShape.container_shape
 
 end Props
 end Restful
